@@ -1,5 +1,5 @@
 #!/usr/bin/env python3
-"""Entry point: per-property checks. See vcheck.py for the shared pipeline."""
+"""Entry point: ./check <Cxx|setup> [--tier quick|thorough] [--replay FILE].  See vcheck.py for the shared pipeline."""
 import argparse
 import json
 import os
@@ -8,376 +8,13 @@ import sys
 sys.path.insert(0, os.path.dirname(os.path.abspath(__file__)))
 import vcheck as V  # noqa: E402
 from vcheck import Ctx, ToolError, log  # noqa: E402
+import p_core  # noqa: E402
 import p_prover  # noqa: E402
+import p_completion  # noqa: E402
+import p_files  # noqa: E402
 
-TV_ASSUME = [
-    "TLC evaluates the TLA+ reference semantics (spec/Values, PropHT, Sigma0, MiniGringo) correctly",
-    "interpretations are finite: atom arguments range over a small base (integers lo..hi, one named symbolic constant, "
-    "optionally #inf/#sup); quantifiers range over a concrete window plus abstract far elements, three-valued and sound "
-    "for the infinite domain; unknown (U) evaluations never raise an alarm and are counted",
-    "division/modulo follow anthem's documented semantics D1 (positive divisors only)",
-    "the harness serializers are mechanical (one constructor per JSON record)",
-]
-
-
-def sample_records(records, verdicts, k=4):
-    out = []
-    vb = {}
-    for v in verdicts:
-        vb.setdefault(v["id"], []).append({x: v[x] for x in ("check", "v", "n", "unk", "t", "f", "ident") if x in v})
-    for r in records[:k]:
-        out.append({"id": r["id"], "input": r.get("text", ""), "verdicts": vb.get(r["id"], [])})
-    return out
-
-
-# =================================================================================== C01 / C08
-def rule_records(ctx, nprog, depth):
-    # systematic families (exhaustive in thorough, strided sample in quick) + seeded random programs
-    q = ctx.quick()
-    cases = V.tlc_generate(ctx, "sysrule", 200 if q else 1476, depth, {"GEN_STRIDE": 181 if q else 1})
-    if q:  # the small categories (double unary minus, unary minus over an operation) sit at the low indices
-        cases += V.tlc_generate(ctx, "sysnest", 24, depth, {"GEN_STRIDE": 1, "VERIF_SEED": 0})
-    cases += V.tlc_generate(ctx, "sysnest", 110 if q else 6003, depth, {"GEN_STRIDE": 1009 if q else 1})
-    cases += V.tlc_generate(ctx, "sysnames", 110 if q else 3200, depth, {"GEN_STRIDE": 1013 if q else 1})
-    cases += V.tlc_generate(ctx, "program", nprog, depth)
-    for i, (name, text) in enumerate(V.repo_programs()):
-        cases.append({"id": f"repo{i}", "prog": V.strip_comments(text), "origin": name})
-    cases += [{"id": f"t{i}", "prog": p} for i, p in enumerate(TABLE_PROGRAMS)]
-    recs = V.run_harness(ctx, "translate", cases)
-    return cases, recs
-
-
-TABLE_PROGRAMS = [
-    # shapes from the unit-test tables of tau_star.rs / natural.rs / mu.rs, and the fresh-name traps
-    "p(X+1) :- q(X).", "p(X/2) :- q(X).", "{p(X)} :- q(X), not r(X).", ":- p(X), X > 0.", "p(1..2).",
-    "p(X) :- X = 0..1.", "p(X*X) :- q(X), X != 1.", "p(X \\ 2) :- q(X).", "p(I+J) :- q(I), q(J).",
-    "p(Z) :- q(Z1), Z = Z1 + 1.", "p(V1) :- q(V1), not q(V).", "p(K) :- K = I..J, q(I), q(J).",
-    "p(Q/R) :- q(Q), q(R).", "p(Q \\ R) :- q(Q), r(R).", "{p(I)} :- q(I), not not p(I).", "p(X,Y) :- q(X), q(Y), X < Y.",
-    "p(-X) :- q(X).", "p(-(1..2)).", "p((1..2)*2).", "p(1..X) :- q(X).", "p(X..2) :- q(X).", "s :- not not s.",
-    "s :- q(X), not p(X).", ":- s, not q(1).", "p(a). p(1). q(X) :- p(X), X > 0.", "p(X) :- q(X), X < #sup, X > #inf.",
-    "p(N0) :- q(N0), N0 = 1..2.", "p(1..2, N0) :- q(N0).", "p(X) :- q(X), X != a.", "p(2/0).", "p(1/(X-1)) :- q(X).",
-    "p(X) :- q(X), 1 = X \\ 2.", "{p(1..2)}.", "{p(X+1)} :- q(X).", "p(X+(1..2)) :- q(X).", "p(X) :- q((X+1)*2).",
-    "p(X) :- X = -1..1, not q(X).", "p(5 \\ -2).", "p(-3/2).", "p(-3 \\ 2).",
-]
-
-
-def check_rules(ctx, prefix, nprog_q, nprog_t):
-    V.build()
-    nprog = nprog_q if ctx.quick() else nprog_t
-    cases, recs = rule_records(ctx, nprog, 2 if ctx.quick() else 3)
-    rules = [r for r in recs if r["kind"] == "rule"]
-    panics = [r for r in recs if r["kind"] == "panic"]
-    rejected = [r for r in recs if r["kind"] == "reject"]
-    usable, skipped = [], {}
-    seen = set()
-    for r in rules:
-        key = json.dumps(r["rule"], sort_keys=True)
-        if key in seen:
-            continue
-        seen.add(key)
-        why = V.add_params(ctx, r, len(usable), ["rule", "tau", "mu", "nat"], nvars=len(r["rule"]["vars"]),
-                           size=V.tree_size(r["rule"]))
-        if why is None:
-            usable.append(r)
-        else:
-            skipped[why] = skipped.get(why, 0) + 1
-    verdicts = V.tlc_validate(ctx, "TraceSem", usable, {})
-    stats, violations = V.collect(verdicts, usable, prefix)
-    for p in panics:
-        violations.append({"check": prefix + ".panic", "text": p["text"], "detail": "anthem panicked: " + p["panic"], "record": p})
-    if prefix == "C08":
-        # mu never fails: every parsed program must have produced rule records (a panic is reported above)
-        pass
-    coverage = {
-        "programs": len(cases) - len(rejected),
-        "rules_validated": len(usable),
-        "disagreements_checked": stats["verdicts"] - stats["skip"],
-        "evaluations": stats["evaluations"],
-        "identical_normal_forms": stats["identical"],
-        "unknown_evaluations": stats["unknown"],
-        "distinct_nontrivial": len(stats["nontrivial_ids"]),
-        "vacuous_or_constant": stats["vacuous"],
-        "skipped": skipped,
-        "rejected_by_parser": len(rejected),
-        "rule": "programs derived by TLC from the mini-gringo grammar (spec/Gen.tla, depth-bounded, adversarial variable pool) "
-                "+ all res/examples programs + test-table shapes; distinct by rule tree; non-trivial = the reference grounding "
-                "mentions atoms and was both true and false on the explored HT interpretations (or groundings identical)",
-        "samples": sample_records(usable, [v for v in verdicts if v["check"].startswith(prefix)]),
-        "exhaustive": False,
-    }
-    return V.finish(ctx, "translation_validation", coverage, violations, TV_ASSUME)
-
-
-def run_C01(ctx):
-    return check_rules(ctx, "C01", 50, 2500)
-
-
-def run_C08(ctx):
-    return check_rules(ctx, "C08", 50, 2500)
-
-
-# =================================================================================== formulas
-def free_vars(t, bound=frozenset()):
-    """free variables / function constants of a sigma_0 tree (only used to predict cost)."""
-    out = set()
-    if isinstance(t, dict):
-        k = t.get("k")
-        if k == "var" and "s" in t:
-            if (t["v"], t["s"]) not in bound:
-                out.add((t["v"], t["s"]))
-        elif k == "fc":
-            out.add((t["c"], "f" + t["s"]))
-        elif k in ("forall", "exists"):
-            b = bound | {(v["n"], v["s"]) for v in t["vars"]}
-            out |= free_vars(t["f"], b)
-        else:
-            for v in t.values():
-                out |= free_vars(v, bound)
-    elif isinstance(t, list):
-        for v in t:
-            out |= free_vars(v, bound)
-    return out
-
-
-def _conjuncts(t):
-    if isinstance(t, dict) and t.get("k") == "and":
-        return _conjuncts(t["l"]) + _conjuncts(t["r"])
-    return [t]
-
-
-def _defined(v, body, forall):
-    """is quantified variable v likely bound by a defining equality (the evaluator then does not enumerate it)?"""
-    if forall:
-        if not (isinstance(body, dict) and body.get("k") in ("imp", "rimp")):
-            return False
-        body = body["l"] if body["k"] == "imp" else body["r"]
-    for c in _conjuncts(body):
-        if isinstance(c, dict) and c.get("k") == "cmp" and len(c["g"]) == 1 and c["g"][0]["r"] == "eq":
-            for side in (c["t"], c["g"][0]["t"]):
-                if side.get("k") == "var" and side.get("v") == v["n"] and side.get("s") == v["s"]:
-                    return True
-    return False
-
-
-def qdepth(t):
-    """maximal number of ENUMERATED quantified variables along a path"""
-    if isinstance(t, dict):
-        inner = max([qdepth(v) for v in t.values()] + [0])
-        if t.get("k") in ("forall", "exists"):
-            return inner + sum(0 if _defined(v, t["f"], t["k"] == "forall") else 1 for v in t["vars"])
-        return inner
-    if isinstance(t, list):
-        return max([qdepth(v) for v in t] + [0])
-    return 0
-
-
-def formula_cost_params(ctx, rec, idx, trees, extra_free=0):
-    fv = set()
-    size = 0
-    depth = 0
-    for t in trees:
-        fv |= free_vars(t)
-        size += V.tree_size(t)
-        depth = max(depth, qdepth(t))
-    return V.add_params(ctx, rec, idx, [], nvars=len(fv) + extra_free + depth, size=size,
-                        budget=12000000 if ctx.quick() else 150000000), len(fv)
-
-
-def generic_formula_check(ctx, mode, gen_mode, nq, nt, depth_q, depth_t, trees_of, prefix, extra_cases=(), transform=None,
-                          rule_text=""):
-    V.build()
-    cases = V.tlc_generate(ctx, gen_mode, nq if ctx.quick() else nt, depth_q if ctx.quick() else depth_t)
-    cases += list(extra_cases)
-    recs = V.run_harness(ctx, mode, cases)
-    panics = [r for r in recs if r["kind"] == "panic"]
-    rejected = [r for r in recs if r["kind"] == "reject"]
-    good = [r for r in recs if r["kind"] not in ("panic", "reject", "skip")]
-    usable, skipped, seen = [], {}, set()
-    for r in good:
-        if transform:
-            r = transform(r)
-            if r is None:
-                continue
-        key = r.get("text")
-        if key in seen:
-            continue
-        seen.add(key)
-        numer = []
-        V.numerals([r.get(k) for k in ("f", "g", "out", "term", "outs")], numer)
-        if [n for n in numer if abs(n) > 20]:
-            skipped["large-numerals"] = skipped.get("large-numerals", 0) + 1
-            continue
-        why, _ = formula_cost_params(ctx, r, len(usable), trees_of(r))
-        if why is None:
-            usable.append(r)
-        else:
-            skipped[why] = skipped.get(why, 0) + 1
-    verdicts = V.tlc_validate(ctx, "TraceSem", usable, {})
-    stats, violations = V.collect(verdicts, usable, prefix)
-    for p in panics:
-        violations.append({"check": prefix + ".panic", "text": p["text"], "detail": "anthem panicked: " + p["panic"], "record": p})
-    coverage = {
-        "programs": len(usable),
-        "cases_generated": len(cases),
-        "disagreements_checked": stats["verdicts"] - stats["skip"],
-        "evaluations": stats["evaluations"],
-        "identical_normal_forms": stats["identical"],
-        "unknown_evaluations": stats["unknown"],
-        "distinct_nontrivial": len(stats["nontrivial_ids"]),
-        "vacuous_or_constant": stats["vacuous"],
-        "skipped": skipped,
-        "rejected_by_parser": len(rejected),
-        "rule": rule_text,
-        "samples": sample_records(usable, [v for v in verdicts if v["check"].startswith(prefix)]),
-        "exhaustive": False,
-    }
-    return coverage, violations, usable, verdicts
-
-
-FORMULA_RULE = ("formulas derived by TLC from the sigma_0 grammar (spec/Gen.tla: all connectives, quantifiers over the three "
-                "sorts, same name at two sorts, chained comparisons, integer arithmetic) plus hand-written trap shapes; for every "
-                "assignment of the free variables over the window and every interpretation over the base; distinct by text; "
-                "non-trivial = the reference side was both true and false (or groundings identical and mention atoms)")
-
-GAMMA_EXTRA = [
-    "p(X) -> q(X)", "not p(X)", "not not p(X)", "p(X) <- q(X)", "p(X) <-> q(X)", "forall X (p(X) -> hp(X))",
-    "exists X (hp(X) and not p(X))", "(p(1) -> q(1)) -> r", "not (p(1) -> q(1))", "forall N$i (p(N$i) or not p(N$i))",
-    "(p(a) <-> not q(a)) or r", "not (p(1) <- q(1))", "not not (p(1) <-> q(1))", "(p(1) -> (q(1) -> r)) -> r",
-    "exists X$i (X$i > 0 and (p(X$i) -> q(X$i)))", "p(1) and (q(1) or not r)", "#true -> p(1)", "p(1) -> #false",
-    "tp(X) -> hp(X)", "hp(1) <-> tp(1)", "forall X Y (t(X, Y) -> t(Y, X))", "not t(1, 2) -> t(2, 1)",
-]
-
-
-def run_C05(ctx):
-    extra = [{"id": f"x{i}", "f": f} for i, f in enumerate(GAMMA_EXTRA)]
-    cov, viol, _, _ = generic_formula_check(ctx, "gamma", "formula", 260, 4000, 2, 3, lambda r: [r["f"]], "C05", extra,
-                                            rule_text=FORMULA_RULE)
-    return V.finish(ctx, "translation_validation", cov, viol, TV_ASSUME)
-
-
-SUBST_EXTRA = [
-    ("p(X)", "X", "s"), ("exists X (X = Y)", "Y", "X$i + 3"), ("forall X p(X)", "X", "1"),
-    ("X = 5 and exists Y (p(X, Y))", "X", "Y"), ("X = 5 and exists Y (t(X, Y) and p(Y1))", "X", "Y"),
-    ("exists Y Y1 (t(X, Y) and p(Y1))", "X", "Y"), ("exists Y (t(X, Y) and exists Y1 (t(Y, Y1)))", "X", "Y"),
-    ("forall Y (t(X, Y)) and exists Y (t(Y, X))", "X", "Y"), ("exists Y$i (t(X$i, Y$i))", "X$i", "Y$i + 1"),
-    ("exists Y$i (t(X, Y$i) and p(Y))", "X", "Y$i"), ("exists Y (t(X, Y)) and p(X$i)", "X", "Y"),
-    ("exists Y Z (t(X, Y) and t(Y, Z))", "X", "Z"), ("exists Y (exists Y1 (t(X, Y) and p(Y1)))", "X", "Y"),
-    ("exists Y Y (t(X, Y))", "X", "Y"), ("forall X (p(X) -> exists Y t(X, Y))", "X", "Y"),
-    ("exists X$i (t(X, X$i))", "X", "X$i"), ("exists N$i (N$i > I$i and p(N$i + I$i))", "I$i", "N$i * 2"),
-    ("exists S$s (t(S$s, X$s))", "X$s", "S$s"), ("exists Y (Y = X) and exists Y1 (t(Y1, X))", "X", "Y"),
-    ("exists Y (t(X, Y) and exists Y1 (t(Y1, Y) and exists Y2 (t(Y2, X))))", "X", "Y"),
-]
-
-
-def run_C17(ctx):
-    extra = [{"id": f"x{i}", "f": f, "var": v, "term": t} for i, (f, v, t) in enumerate(SUBST_EXTRA)]
-    cov, viol, _, _ = generic_formula_check(ctx, "subst", "subst", 320, 5000, 2, 3,
-                                            lambda r: [r["f"], r["out"], r["term"]], "C17", extra, rule_text=FORMULA_RULE)
-    return V.finish(ctx, "translation_validation", cov, viol, TV_ASSUME)
-
-
-# =================================================================================== C07 / C18
-SIMP_EXTRA = [
-    "exists X$i (X$i = X$i * X$i and p(X$i) and X$i = X$i * X$i)",
-    "exists Z (exists I$i Z (I$i = Z and p(Z)) and q(Z))",
-    "exists X$g (X$g = 1 and p(X$g))", "exists X$i (X$i = X$i + 1 and p(X$i))", "exists X$s (X$s = a and p(X$s))",
-    "exists X Y (X = Y and p(X, Y) and X = Y)", "exists X Y (X = 1 and Y = 1 and t(X, Y))",
-    "exists X$i Y (X$i = 1 and Y = 1 and t(X$i, Y))", "exists X Y$i (X = N$i and Y$i = N$i and t(X, Y$i))",
-    "forall X (exists I$i (I$i = X and p(I$i)) -> q(X))", "forall X (exists I$i (I$i = X and p(I$i)) -> r)",
-    "exists X (exists I$i J$i (I$i = X and p(J$i)) and q(X))", "exists X (p(X)) and q(X)", "q(X) or forall X (p(X))",
-    "exists X (p(X) and exists X (q(X)))", "forall X Y (p(X))", "exists X (r)", "forall X (exists Y (exists Z (t(X,Y) and p(Z))))",
-    "(p(1) -> q(1)) and (q(1) -> p(1))", "(p(1) -> q(1)) and (q(1) -> r)", "not not p(1)", "not not not p(1)",
-    "1 < 1", "X = X", "X != X", "1 <= X$i <= X$i", "a = a = b", "p(1) and (p(1) and q(1))", "(q(1) and p(1)) and p(1)",
-    "exists X (X = Y and exists Y (t(X, Y)))", "exists X (X = Y1 + 0 and p(X))", "exists N$i (N$i = 2 and N$i > X)",
-    "exists X (1 = X and X = 2)", "exists X$i (1 = X$i and p(X$i) and X$i = 2)", "forall X (X = 1 and p(X))",
-    "exists X (X = 1 or p(X))", "exists X (not (X = 1) and p(X))", "p(1) <- (q(1) <- r)", "(p(1) <- q(1)) <- r",
-    "exists X Y (X = Y and Y = X and t(X, Y))", "exists X$i Y$i (X$i = Y$i + 1 and Y$i = X$i + 1)",
-    "exists Y (exists N$i (N$i = Y and p(N$i)) and exists Y (q(Y)))",
-    "forall Z (exists I$i Z (I$i = Z and p(Z)) -> r)", "exists Z (exists I$i (Z = I$i and p(I$i)) and not q(Z))",
-]
-
-
-def simp_transform(r):
-    """group the 9 results of a simplify record by result tree; HT check if any intuitionistic/ht result is in the group"""
-    if r["kind"] != "simp":
-        return r
-    groups = {}
-    panics = []
-    for o in r["outs"]:
-        if "panic" in o:
-            panics.append(o)
-            continue
-        key = json.dumps(o["out"], sort_keys=True)
-        g = groups.setdefault(key, {"out": o["out"], "tags": [], "logic": "cl", "out_text": o["out_text"], "same": o["same"]})
-        g["tags"].append(o["portfolio"] + "/" + o["strategy"])
-        if o["portfolio"] in ("intuitionistic", "ht"):
-            g["logic"] = "ht"
-    outs = [g for g in groups.values() if not g["same"]]
-    r2 = {k: r[k] for k in ("id", "text", "nsyms", "syms", "f")}
-    r2["kind"] = "equiv"
-    r2["outs"] = [{"logic": g["logic"], "out": g["out"], "tags": g["tags"]} for g in outs]
-    r2["unchanged"] = [t for g in groups.values() if g["same"] for t in g["tags"]]
-    r2["panics"] = panics
-    r2["passes"] = {o["portfolio"]: o.get("passes", []) for o in r["outs"] if o.get("strategy") == "fixpoint"}
-    return r2
-
-
-def simp_cases(ctx, nq, nt):
-    cases = V.tlc_generate(ctx, "redex", nq if ctx.quick() else nt, 2)
-    cases += V.tlc_generate(ctx, "formula", (nq // 3) if ctx.quick() else nt // 2, 2 if ctx.quick() else 3)
-    cases += [{"id": f"e{i}", "f": f} for i, f in enumerate(SIMP_EXTRA)]
-    # the formulas the portfolios really see: tau* / completion / gamma outputs of generated programs
-    progs = V.tlc_generate(ctx, "sysrule", 40 if ctx.quick() else 400, 2, {"GEN_STRIDE": 37})
-    progs += [{"id": f"t{i}", "prog": p} for i, p in enumerate(TABLE_PROGRAMS)]
-    for rec in V.run_harness(ctx, "translate", progs, tag="-seen"):
-        if rec["kind"] == "rule":
-            cases.append({"id": "tau-" + rec["id"], "f": rec["tau_text"]})
-    return cases
-
-
-def run_C07(ctx):
-    V.build()
-    cases = simp_cases(ctx, 500, 6000)
-    recs = V.run_harness(ctx, "simplify", cases)
-    rejected = [r for r in recs if r["kind"] == "reject"]
-    usable, skipped, violations, seen = [], {}, [], set()
-    unchanged = 0
-    for r in recs:
-        if r["kind"] != "simp" or r["text"] in seen:
-            continue
-        seen.add(r["text"])
-        r2 = simp_transform(r)
-        for pn in r2["panics"]:
-            violations.append({"check": "C07.panic", "text": r["text"], "detail": f"anthem panicked in {pn['portfolio']}/{pn['strategy']}: {pn['panic']}", "record": r})
-        if not r2["outs"]:
-            unchanged += 1
-            continue
-        why, _ = formula_cost_params(ctx, r2, len(usable), [r2["f"]] + [o["out"] for o in r2["outs"]])
-        if why is None:
-            usable.append(r2)
-        else:
-            skipped[why] = skipped.get(why, 0) + 1
-    verdicts = V.tlc_validate(ctx, "TraceSem", usable, {})
-    stats, viol = V.collect(verdicts, usable, "C07")
-    for v in viol:
-        v["detail"] += f"  [results: {v['verdict'].get('note')}]"
-    violations += viol
-    coverage = {
-        "programs": len(usable), "cases_generated": len(cases), "formulas_unchanged_by_all_portfolios": unchanged,
-        "disagreements_checked": stats["verdicts"], "evaluations": stats["evaluations"],
-        "identical_normal_forms": stats["identical"], "unknown_evaluations": stats["unknown"],
-        "distinct_nontrivial": len(stats["nontrivial_ids"]), "vacuous_or_constant": stats["vacuous"], "skipped": skipped,
-        "rejected_by_parser": len(rejected),
-        "rule": "rewrite-rule left-hand sides instantiated with TLC-generated sub-formulas (spec/Gen.tla mode redex: 44 templates), "
-                "random sigma_0 formulas, hand-written traps, and the tau* outputs of generated rules; each input x {intuitionistic, ht, "
-                "classic} x {shallow, recursive, fixpoint}, results grouped by tree; HT-equivalence for intuitionistic/ht results, "
-                "classical equivalence for classic-only results, for every assignment of free variables; non-trivial as in C05",
-        "samples": sample_records(usable, [v for v in verdicts if v["check"].startswith("C07")]), "exhaustive": False,
-    }
-    return V.finish(ctx, "translation_validation", coverage, violations, TV_ASSUME)
-
-
-RUNNERS = {"C10": p_prover.run_C10, "C01": run_C01, "C08": run_C08, "C05": run_C05, "C17": run_C17, "C07": run_C07}
+RUNNERS = dict(p_core.RUNNERS)
+RUNNERS.update({"C10": p_prover.run_C10, "C04": p_completion.run_C04, "C20": p_files.run_C20})
 
 
 def main():
@@ -398,6 +35,8 @@ def main():
         log(f"unknown property {a.prop}")
         return 2
     ctx = Ctx(a.prop, a.tier, seed)
+    if a.replay:
+        ctx.replay = json.load(open(a.replay))
     try:
         return RUNNERS[a.prop](ctx)
     except ToolError as e:
